@@ -1,4 +1,4 @@
-import OW.Proofs.WrapperNdRefine
+import OW.Proofs.WrapperNdRun
 /-!
 C04 (n-d level) — the view algebra of the wrapper template yields the cell views the list-level semantics assumes.
 
@@ -235,20 +235,6 @@ def WriteFoot (states outputs : Arr) (nS nO T' i : Int) (u q : Nat) : Prop :=
 between cells when `nIn < N` or `nSets < N`) -/
 def ReadOnlyFoot (parameters inputs : Arr) (u : Nat) : Prop := u = parameters.sid ∨ u = inputs.sid
 
-theorem row_lt {n a b s s' : Int} (hn : 1 ≤ n) (hab : a < b) (hs : s < n) (hs' : 0 ≤ s') : a * n + s < b * n + s' := by
-  have h1 : (a + 1) * n ≤ b * n := Int.mul_le_mul_of_nonneg_right (by omega) (by omega)
-  have e : (a + 1) * n = a * n + n := by ring
-  omega
-
-theorem row_ne {n a b s s' : Int} (hn : 1 ≤ n) (hab : a ≠ b) (hs0 : 0 ≤ s) (hs : s < n) (hs0' : 0 ≤ s') (hs' : s' < n) :
-    a * n + s ≠ b * n + s' := by
-  rcases Int.lt_or_gt_of_ne hab with h | h
-  · have := row_lt hn h hs hs0'; omega
-  · have := row_lt hn h hs' hs0; omega
-
-theorem row_nonneg {n a s : Int} (hn : 1 ≤ n) (ha : 0 ≤ a) (hs : 0 ≤ s) : 0 ≤ a * n + s := by
-  have := Int.mul_nonneg ha (by omega : (0 : Int) ≤ n); omega
-
 /-- every position the views of cell `i` touch in `states`/`outputs` (theorems `cell_views_states`,
 `cell_views_outputs`) lies in `WriteFoot … i` -/
 theorem stateView_pos_in_foot (states outputs : Arr) {nS nO T' i s : Int} (s0 : 0 ≤ s) (s1 : s < nS) :
@@ -294,16 +280,6 @@ theorem views_disjoint {states outputs parameters inputs : Arr} {nS nO T' i j : 
     · exact hsi e
     · exact hop e
     · exact hoi e
-
-/-- reading element `t` of a flat view is unaffected by a storage write anywhere else -/
-theorem flat_get1_frame {h : Heap α} {sid : Nat} {base n : Int} (rv : RootOn h (flat sid base n) [n]) {t : Int}
-    (t0 : 0 ≤ t) (t1 : t < n) (u q : Nat) (v : α) (hne : u ≠ sid ∨ q ≠ (base + t).toNat) :
-    get1 (setStore h u q v) (flat sid base n) t = get1 h (flat sid base n) t := by
-  obtain ⟨x, hx, _, hg⟩ := rv.flat_get t0 t1
-  obtain ⟨x', hx', _, hg'⟩ := (rv.sameShape (sameShape_setStore h u q v)).flat_get t0 t1
-  rw [cell_setStore, if_neg (by rintro ⟨e1, e2⟩; rcases hne with e | e; exact e e1.symm; exact e e2.symm), hx] at hx'
-  injection hx' with hx'
-  rw [hg, hg', hx']
 
 /-- **write_invisible_to_other_cells.** On root arrays in pairwise different storages, a write of cell `i` — any
 storage update inside `WriteFoot … i`, which is where `Set1` through its state view and output views lands — leaves
@@ -364,9 +340,8 @@ theorem runDims_roots {inputs states outputs : Arr} {nIn nI T N nS M nO T' : Int
     runDims inputs states outputs = .ok
       { numCells := N, numStates := nS, numInputSequences := nIn, inputLen := T, cellInputsShape := [nI, T],
         outputStepSlice := [1, 1, 1], outputSizeSlice := [1, 1, T], statesSizeSlice := [1, nS],
-        inputsSizeSlice := [1, nI, T] } := by
-  simp [runDims, View.len, hi, hs, ho, rootView, setAt, View.newIndex, View.ndims, uniform, bind, Except.bind, pure,
-    Except.pure]
+        inputsSizeSlice := [1, nI, T] } :=
+  runDims_eq hi hs ho
 
 /-- **template_views.** With the vectors of `runDims` and the per-goroutine position vectors
 (`X.NewIndex(0)` with the cell / output number stored into it), the views the template builds are the ones the
@@ -436,107 +411,44 @@ theorem wrapperNd_refines (km : KModel α) {h : Heap α} {parameters inputs stat
         (∀ o t, o < nO → t < T' → cell h' outputs.sid (ob + (i * nO + o) * T' + t) = (o'[o]?).bind (·[t]?)) ∧
         (∀ u q, ¬ (u = states.sid ∧ ∃ s, s < nS ∧ q = sb + i * nS + s) →
                 ¬ (u = outputs.sid ∧ ∃ o t, o < nO ∧ t < T' ∧ q = ob + (i * nO + o) * T' + t) →
-                cell h' u q = cell h u q)) := by
-  -- the numbers of the preamble
-  rw [runDims_roots ri.view rs.view ro.view] at hrd
-  injection hrd with hrd
-  subst hrd
-  obtain ⟨_, _, hT0⟩ := pos3 ri.pos
-  have hT0' : 1 ≤ T := by omega
-  -- read side
-  obtain ⟨hpar, hpick⟩ := params_refine (i := i) rp hpb hp hnP
-  have hcp := C04.cellParams_scalar nP (mat pst pb rows nSets) i hpick
-  obtain ⟨hsv, rsv, hread, hsfit⟩ := state_read_refine rs hsb hs hiN
-  obtain ⟨hins, hblock⟩ := inputs_refine (i := i) ri hib hi
-  -- both sides up to the kernel call
-  have hL : cellStep km (List.replicate nP none) ((List.range nP).map fun j => (j, 1)) (mat pst pb rows nSets)
-      (cube ist ib nIn nI T) i (rowAt sst (sb + i * nS) nS) (mat ost (ob + i * (nO * T')) nO T') =
-      (do let r ← km.run ((List.range nP).filterMap (C04.pick (mat pst pb rows nSets) i))
-              (mat ist (ib + (i % nIn) * (nI * T)) nI T) (rowAt sst (sb + i * nS) nS)
-          pure (overwrite (rowAt sst (sb + i * nS) nS) r.states,
-            ((mat ost (ob + i * (nO * T')) nO T').zip (r.outputs ++ List.replicate
-              ((mat ost (ob + i * (nO * T')) nO T').length - r.outputs.length) [])).map
-              fun (p : List α × List α) => overwrite p.1 p.2)) := by
-    unfold cellStep
-    simp only [hcp, hblock, bind, Except.bind]
-  have hR : cellStepNd km.run nP nI h parameters inputs states outputs
-      { numCells := N, numStates := nS, numInputSequences := nIn, inputLen := T, cellInputsShape := [(nI : Int), (T : Int)],
-        outputStepSlice := [1, 1, 1], outputSizeSlice := [1, 1, (T : Int)], statesSizeSlice := [1, (nS : Int)],
-        inputsSizeSlice := [1, (nI : Int), (T : Int)] } (i : Int) =
-      (do let r ← km.run ((List.range nP).filterMap (C04.pick (mat pst pb rows nSets) i))
-              (mat ist (ib + (i % nIn) * (nI * T)) nI T) (rowAt sst (sb + i * nS) nS)
-          let h3 ← writeOutputs h outputs (i : Int) (T : Int) 0 r.outputs
-          writeView h3 (flat states.sid ((sb + i * nS : Nat) : Int) (nS : Int)) r.states) := by
-    have hins' := hins
-    simp only [bind, Except.bind] at hins'
-    unfold cellStepNd
-    simp only [hpar, hsv, hread, hins', bind, Except.bind]
-  rw [hL, hR]
-  cases hk : km.run ((List.range nP).filterMap (C04.pick (mat pst pb rows nSets) i))
-      (mat ist (ib + (i % nIn) * (nI * T)) nI T) (rowAt sst (sb + i * nS) nS) with
-  | error e0 =>
-    refine ⟨fun e he => ?_, fun s' o' he => ?_⟩
-    · simp only [bind, Except.bind] at he ⊢
-      cases he; rfl
-    · simp [bind, Except.bind] at he
-  | ok r =>
-    obtain ⟨hko, hkl, hks⟩ := hK _ _ _ _ hk
-    refine ⟨fun e he => by simp [bind, Except.bind, pure, Except.pure] at he, fun s' o' he => ?_⟩
-    simp only [bind, Except.bind, pure, Except.pure, Except.ok.injEq, Prod.mk.injEq] at he
-    obtain ⟨hs', ho'⟩ := he
-    -- write side
-    obtain ⟨h3, hw3, hss3, hin3, hout3⟩ := writeOutputs_spec hob hiM hT0' hT r.outputs 0 h ro (by omega) hkl
-    have rsv3 := rsv.sameShape hss3
-    obtain ⟨hw4, hss4⟩ := writeView_flat rsv3 r.states (by omega)
-    simp only [Int.toNat_natCast] at hw4 hss4
-    refine ⟨_, ?_, hss3.trans hss4, fun s s1 => ?_, fun o t o1 t1 => ?_, fun u q hns hno => ?_⟩
-    · simp only [bind, Except.bind]
-      have : ((0 : Nat) : Int) = 0 := rfl
-      rw [← this, hw3]
-      exact hw4
-    · -- state row
-      have hrl : (rowAt sst (sb + i * nS) nS).length = nS := rowAt_length hsfit
-      rw [cell_writeRun, ← hs', overwrite_getElem? _ _ _ (by rw [hrl]; exact s1), rowAt_getElem? _ _ _ _ s1]
-      have h3c : cell h3 states.sid (sb + i * nS + s) = sst[sb + i * nS + s]? := by
-        rw [hout3 _ _ (Or.inl hso)]; simp [cell, hs]
-      have hsome : sb + i * nS + s < sst.length := by omega
-      by_cases hsl : s < r.states.length
-      · rw [if_pos ⟨rfl, by omega, by omega⟩, if_pos hsl, h3c, List.getElem?_eq_getElem hsome]
-        simp
-      · rw [if_neg (by omega), if_neg hsl, h3c]
-    · -- output rows
-      rw [cell_writeRun, if_neg (by intro c; exact hso c.1.symm), hin3 o t o1 t1, ← ho']
-      have hol : (mat ost (ob + i * (nO * T')) nO T').length = nO := mat_length _ _ _ _
-      have hfit := ro.row_fits3 hob ho hiM o1
-      rw [newO_getElem? _ _ o (by rw [hol]; exact o1) (by rw [hol]; exact hko)]
-      have hrow : (mat ost (ob + i * (nO * T')) nO T')[o]'(by rw [hol]; exact o1) =
-          rowAt ost (ob + (i * nO + o) * T') T' := by
-        have := mat_getElem? ost (ob + i * (nO * T')) nO T' o o1
-        rw [List.getElem?_eq_getElem (by rw [hol]; exact o1)] at this
-        injection this with this
-        rw [this]; congr 1; ring
-      simp only [Option.bind_some]
-      rw [hrow, overwrite_getElem? _ _ _ (by rw [rowAt_length hfit]; exact t1), rowAt_getElem? _ _ _ _ t1]
-      have hcell : cell h outputs.sid (ob + (i * nO + o) * T' + t) = ost[ob + (i * nO + o) * T' + t]? := by
-        simp [cell, ho]
-      rw [hcell]
-      unfold outVal
-      simp only [Nat.zero_le, if_true, Nat.sub_zero]
-      cases hro : r.outputs[o]? with
-      | none => simp
-      | some ser =>
-        simp only [Option.getD_some, Option.bind_some]
-        by_cases htl : t < ser.length
-        · rw [if_pos htl, List.getElem?_eq_getElem htl]; simp
-        · rw [if_neg htl, List.getElem?_eq_none (by omega)]; simp
-    · -- frame
-      rw [cell_writeRun, if_neg, hout3]
-      · by_cases hu : u = outputs.sid
-        · right; intro o t o1 t1 hq
-          exact hno ⟨hu, o, t, o1, t1, hq⟩
-        · exact Or.inl hu
-      · rintro ⟨hu, hq1, hq2⟩
-        exact hns ⟨hu, q - (sb + i * nS), by omega, by omega⟩
+                cell h' u q = cell h u q)) :=
+  cellStepNd_refines km rp ri rs ro hpb hib hsb hob hp hi hs ho hso hnP hiN hiM hT hrd hK
+
+/-- **runNd_refines** (specs with scalar parameters only; the cells executed one after the other — C05 is about why
+the order does not matter). Root arrays `parameters [rows, nSets]`, `inputs [nIn, nI, T]`, `states [N, nS]`,
+`outputs [M, nO, T']` with `N ≤ M`, `T ≤ T'`, in pairwise different storages (parameters and inputs may share one); a
+kernel whose results fit the arrays. If the list-level vectorised run `runCells` on the row-major denotations of the
+storages succeeds with `(ss, os)`, then `Run` through the template's views (`runNd`: the preamble, then `cellStepNd` for
+`i = 0 … N-1`) does not panic, keeps the heap's shape, and afterwards
+* the states storage denotes `ss` and the outputs storage denotes `os` (ALL `M` rows and `T'` timesteps: rows `≥ N` and
+  timesteps `≥ T` as before, by `C04.runCells_spec` / `C04.cellStep_frame`);
+* every other storage (parameters, inputs, anything else in the heap) is the same list as before, and the states and
+  outputs storages are unchanged outside the windows of the two arrays (`run_frame`). -/
+theorem runNd_refines (km : KModel α) {h : Heap α} {parameters inputs states outputs : Arr}
+    {rows nSets nIn nI T N nS M nO T' nP pb ib sb ob : Nat} {pst ist sst ost : List α}
+    (rp : RootOn h parameters [(rows : Int), (nSets : Int)])
+    (ri : RootOn h inputs [(nIn : Int), (nI : Int), (T : Int)])
+    (rs : RootOn h states [(N : Int), (nS : Int)])
+    (ro : RootOn h outputs [(M : Int), (nO : Int), (T' : Int)])
+    (hpb : parameters.base = (pb : Int)) (hib : inputs.base = (ib : Int)) (hsb : states.base = (sb : Int))
+    (hob : outputs.base = (ob : Int))
+    (hp : h[parameters.sid]? = some pst) (hi : h[inputs.sid]? = some ist)
+    (hs : h[states.sid]? = some sst) (ho : h[outputs.sid]? = some ost)
+    (hso : states.sid ≠ outputs.sid) (hps : parameters.sid ≠ states.sid) (hpo : parameters.sid ≠ outputs.sid)
+    (his : inputs.sid ≠ states.sid) (hio : inputs.sid ≠ outputs.sid)
+    (hnP : nP ≤ rows) (hNM : N ≤ M) (hT : T ≤ T')
+    (hK : ∀ p ins st r, km.run p ins st = .ok r →
+      r.outputs.length ≤ nO ∧ (∀ ser ∈ r.outputs, ser.length ≤ T) ∧ r.states.length ≤ nS)
+    {ss : List (List α)} {os : List (List (List α))}
+    (hrun : runCells km (List.replicate nP none) ((List.range nP).map fun j => (j, 1)) (mat pst pb rows nSets)
+      (cube ist ib nIn nI T) 0 (mat sst sb N nS) (cube ost ob M nO T') = .ok (ss, os)) :
+    ∃ h' sst' ost', runNd km.run nP nI h parameters inputs states outputs = .ok h' ∧ SameShape h h' ∧
+      h'[states.sid]? = some sst' ∧ h'[outputs.sid]? = some ost' ∧
+      (∀ u, u ≠ states.sid → u ≠ outputs.sid → h'[u]? = h[u]?) ∧
+      mat sst' sb N nS = ss ∧ cube ost' ob M nO T' = os ∧
+      (∀ q, (q < sb ∨ sb + N * nS ≤ q) → sst'[q]? = sst[q]?) ∧
+      (∀ q, (q < ob ∨ ob + N * (nO * T') ≤ q) → ost'[q]? = ost[q]?) :=
+  runNd_eq_runCells km rp ri rs ro hpb hib hsb hob hp hi hs ho hso hps hpo his hio hnP hNM hT hK hrun
 
 end Refine
 
@@ -653,6 +565,13 @@ example : (do let rd ← runDims iA sA oA; cellStepNd toyKernel 3 2 heap pA iA s
     .ok [heap[0], heap[1], [1, 2, 3, 4, 6, 5],
       [-1, -1, -1, -1, -1,  -1, -1, -1, -1, -1,  110, 111, 112, -1, -1,  -1, -1, -1, -1, -1]] := by decide
 
+-- the whole `Run` (3 cells; 2 parameter sets and 2 input blocks reused cyclically) through the views: output rows
+-- 0..2 receive their series in the first 3 timesteps, row 3 and timesteps 3, 4 keep the sentinels; inputs and
+-- parameters are untouched
+example : runNd toyKernel 3 2 heap pA iA sA oA =
+    .ok [heap[0], heap[1], [2, 1, 4, 3, 6, 5],
+      [110, 111, 112, -1, -1,  117, 118, 119, -1, -1,  110, 111, 112, -1, -1,  -1, -1, -1, -1, -1]] := by decide
+
 /-! ### observations on the template's view algebra (hypotheses that are needed; a dead branch that is wrong) -/
 
 /-- `T ≤ T'` is needed (the template takes `inputLen` from the INPUTS and `Slice` checks no bounds): with outputs
@@ -687,4 +606,75 @@ example : let hO : Heap Int := [List.replicate 12 0, [7, 8, 9]]
 end Ex
 
 end
+
+/-! ### T6 instantiated: all hypotheses of `wrapperNd_refines` are met on a concrete heap, for any element type -/
+namespace ExRefine
+variable {α : Type} [Num α]
+
+/-- parameters 3×2, inputs 2×2×3, states 3×2, outputs 4×1×5, all filled with `z` -/
+def heap (z : α) : Heap α := [List.replicate 6 z, List.replicate 12 z, List.replicate 6 z, List.replicate 20 z]
+/-- a kernel whose results fit the arrays: the first input series (at most 3 values), at most 2 states -/
+def toyKm : KModel α :=
+  { name := "toy", init := fun _ => .ok [],
+    run := fun _ ins st => .ok { outputs := [(ins.headD []).take 3], states := st.take 2 } }
+
+example (z : α) :=
+  wrapperNd_refines (toyKm (α := α)) (h := heap z) (rows := 3) (nSets := 2) (nIn := 2) (nI := 2) (T := 3) (N := 3) (nS := 2)
+    (M := 4) (nO := 1) (T' := 5) (nP := 3) (i := 2) (pb := 0) (ib := 0) (sb := 0) (ob := 0)
+    (parameters := rootArr 0 [((3 : Nat) : Int), ((2 : Nat) : Int)] 6)
+    (inputs := rootArr 1 [((2 : Nat) : Int), ((2 : Nat) : Int), ((3 : Nat) : Int)] 12)
+    (states := rootArr 2 [((3 : Nat) : Int), ((2 : Nat) : Int)] 6)
+    (outputs := rootArr 3 [((4 : Nat) : Int), ((1 : Nat) : Int), ((5 : Nat) : Int)] 20)
+    (rootOn_rootArr (st := List.replicate 6 z) (by simp) (by simp [Pos]) rfl (by simp [product])).2
+    (rootOn_rootArr (st := List.replicate 12 z) (by simp) (by simp [Pos]) rfl (by simp [product])).2
+    (rootOn_rootArr (st := List.replicate 6 z) (by simp) (by simp [Pos]) rfl (by simp [product])).2
+    (rootOn_rootArr (st := List.replicate 20 z) (by simp) (by simp [Pos]) rfl (by simp [product])).2
+    rfl rfl rfl rfl rfl rfl rfl rfl (by decide) (by decide) (by decide) (by decide) (by decide)
+    (runDims_roots rfl rfl rfl)
+    (by
+      intro p ins st r hr
+      simp only [toyKm, Except.ok.injEq] at hr
+      subst hr
+      refine ⟨by simp, fun ser hs => ?_, by simp⟩
+      simp only [List.mem_singleton] at hs
+      subst hs
+      simp)
+
+/-- the hypothesis of `runNd_refines` (the list-level run succeeds) is met … -/
+theorem toy_runCells (z : α) : runCells (toyKm (α := α)) (List.replicate 3 none)
+    ((List.range 3).map fun j => (j, 1)) (mat (List.replicate 6 z) 0 3 2) (cube (List.replicate 12 z) 0 2 2 3) 0
+    (mat (List.replicate 6 z) 0 3 2) (cube (List.replicate 20 z) 0 4 1 5) =
+    .ok ([[z, z], [z, z], [z, z]], List.replicate 4 [List.replicate 5 z]) := by
+  have r3 : List.range 3 = [0, 1, 2] := by decide
+  have r2 : List.range 2 = [0, 1] := by decide
+  have r4 : List.range 4 = [0, 1, 2, 3] := by decide
+  have r1 : List.range 1 = [0] := by decide
+  simp [runCells, cellStep, cellParams, cellParams.go, toyKm, overwrite, mat, cube, rowAt, r1, r2, r3, r4,
+    List.replicate, bind, Except.bind, pure, Except.pure]
+
+/-- … and the theorem applies: `Run` through the views succeeds and the storages denote the list-level result -/
+example (z : α) :=
+  runNd_refines (toyKm (α := α)) (h := heap z) (rows := 3) (nSets := 2) (nIn := 2) (nI := 2)
+    (T := 3) (N := 3) (nS := 2) (M := 4) (nO := 1) (T' := 5) (nP := 3) (pb := 0) (ib := 0) (sb := 0) (ob := 0)
+    (parameters := rootArr 0 [((3 : Nat) : Int), ((2 : Nat) : Int)] 6)
+    (inputs := rootArr 1 [((2 : Nat) : Int), ((2 : Nat) : Int), ((3 : Nat) : Int)] 12)
+    (states := rootArr 2 [((3 : Nat) : Int), ((2 : Nat) : Int)] 6)
+    (outputs := rootArr 3 [((4 : Nat) : Int), ((1 : Nat) : Int), ((5 : Nat) : Int)] 20)
+    (rootOn_rootArr (st := List.replicate 6 z) (by simp) (by simp [Pos]) rfl (by simp [product])).2
+    (rootOn_rootArr (st := List.replicate 12 z) (by simp) (by simp [Pos]) rfl (by simp [product])).2
+    (rootOn_rootArr (st := List.replicate 6 z) (by simp) (by simp [Pos]) rfl (by simp [product])).2
+    (rootOn_rootArr (st := List.replicate 20 z) (by simp) (by simp [Pos]) rfl (by simp [product])).2
+    rfl rfl rfl rfl rfl rfl rfl rfl (by decide) (by decide) (by decide) (by decide) (by decide) (by decide) (by decide)
+    (by decide)
+    (by
+      intro p ins st r hr
+      simp only [toyKm, Except.ok.injEq] at hr
+      subst hr
+      refine ⟨by simp, fun ser hs => ?_, by simp⟩
+      simp only [List.mem_singleton] at hs
+      subst hs
+      simp) (toy_runCells z)
+
+end ExRefine
+
 end OW.Props.C04Nd
